@@ -369,7 +369,108 @@ def F22():
     return abs(tot - 1.0) < 1e-4, f"Sulfur default mass fractions {dict(m.massFrac)} sum to {tot:.6f}"
 
 
-ALL = dict(F10=F10, F12=F12, F17=F17, F18=F18, F19=F19, F11=F11, F13=F13, F20=F20, F21=F21, F22=F22, F1=F1, F2=F2, F3=F3, F4=F4, F5=F5, F6=F6, F7=F7, F8=F8, F9=F9, F14=F14)
+def F23():
+    import numpy as np
+    from armi.bookkeeping.db.layout import replaceNonesWithNonsense, replaceNonsenseWithNones
+
+    def mk(lst):
+        a = np.empty(len(lst), dtype=object)
+        for i, v in enumerate(lst):
+            a[i] = v
+        return a
+
+    bad = []
+    for d in ([1, None, 2.5], [np.array([1, 2]), None, np.array([1.5, 2.5])], [np.array([1, 2]), None, np.array([1.0, 2.0])]):
+        try:
+            back = replaceNonsenseWithNones(replaceNonesWithNonsense(mk(d), "p"), "p")
+        except (ValueError, TypeError):
+            continue  # rejected at write time: fine
+        same = all((x is None and y is None) or (x is not None and y is not None and np.array_equal(x, y)) for x, y in zip(d, back))
+        if not same:
+            bad.append((d, list(back)))
+    return not bad, f"stored-but-reads-back-different: {bad}"
+
+
+def F24():
+    import numpy as np
+    from armi.nuclearDataIO.cccc import compxs
+    from armi.tests import COMPXS_PATH
+
+    lib = compxs.readAscii(COMPXS_PATH)
+    md = lib.compxsMetadata
+    ng = md["numGroups"]
+    md["fileWideChiFlag"] = 1
+    md["fileWideChi"] = np.arange(ng, dtype=float).reshape(ng, 1) / 100.0
+    with tempfile.TemporaryDirectory() as d:
+        f = os.path.join(d, "c.bin")
+        try:
+            compxs.writeBinary(lib, f)
+            back = compxs.readBinary(f).compxsMetadata["fileWideChi"]
+        except Exception as e:  # noqa
+            return False, f"COMPXS with fileWideChiFlag=1 cannot be written/read: {type(e).__name__}: {str(e)[:80]}"
+    return bool(np.allclose(back, md["fileWideChi"])), "COMPXS file-wide chi round trip"
+
+
+def F25():
+    import numpy as np
+    from armi.nuclearDataIO.cccc import fixsrc
+
+    a = np.arange(24, dtype=float).reshape(2, 3, 2, 2)
+    with tempfile.TemporaryDirectory() as d:
+        f = os.path.join(d, "f.bin")
+        fixsrc.writeBinary(f, a)
+        try:
+            b = fixsrc.readBinary(f)
+        except Exception as e:  # noqa
+            return False, f"FIXSRC written by armi cannot be read: {type(e).__name__}: {e}"
+    return bool(np.array_equal(a, b)), "FIXSRC round trip"
+
+
+def F26():
+    from armi.nuclearDataIO.cccc import dlayxs
+
+    src = os.path.join(os.path.dirname(dlayxs.__file__), "tests", "fixtures", "mc2v3.dlayxs")
+    d = dlayxs.readBinary(src)
+    with tempfile.TemporaryDirectory() as tmp:
+        f = os.path.join(tmp, "d.ascii")
+        dlayxs.writeAscii(d, f)
+        try:
+            d2 = dlayxs.readAscii(f)
+        except Exception as e:  # noqa
+            return False, f"ASCII DLAYXS written by armi cannot be read back: {type(e).__name__}: {str(e)[:80]}"
+    return bool(dlayxs.compare(d, d2)), "DLAYXS ascii round trip"
+
+
+def F27():
+    import math
+    from armi.nuclearDataIO.cccc import cccc
+
+    vals = [1.0, -2.5e-100, 3.3e200, float("inf"), float("nan"), 5e-324, 1.7976931348623157e308]
+
+    class S(cccc.Stream):
+        def __init__(self, fn, mode, v):
+            cccc.Stream.__init__(self, fn, mode)
+            self.v = v
+
+        def readWrite(self):
+            with self.createRecord() as rec:
+                for i in range(len(self.v)):
+                    self.v[i] = rec.rwDouble(self.v[i])
+
+    with tempfile.TemporaryDirectory() as tmp:
+        f = os.path.join(tmp, "x.ascii")
+        with S(f, "w", list(vals)) as w:
+            w.readWrite()
+        try:
+            with S(f, "r", [None] * len(vals)) as r:
+                r.readWrite()
+        except Exception as e:  # noqa
+            return False, f"ASCII record with extreme floats cannot be read back: {type(e).__name__}: {str(e)[:80]}"
+    same = all(a == b or (math.isnan(a) and math.isnan(b)) for a, b in zip(vals, r.v))
+    return same, f"wrote {vals} read {r.v}"
+
+
+ALL = dict(F26=F26, F27=F27, F24=F24, F25=F25, F23=F23, F10=F10, F12=F12, F17=F17, F18=F18, F19=F19, F11=F11, F13=F13, F20=F20, F21=F21, F22=F22, F1=F1, F2=F2, F3=F3, F4=F4, F5=F5, F6=F6, F7=F7, F8=F8, F9=F9, F14=F14)
 
 if __name__ == "__main__":
     sys.path.insert(0, os.getcwd())
